@@ -25,6 +25,9 @@ judges each result:
                memos: every interleaving of the executed lines with <= bound preemptions
                (vf/sched.py); each thread's result and the memoised answer afterwards obey
                the clauses above (keys threads/...);
+* faults       the first conversion of a cold process is cut short by an exception at every
+               call of Palette.match / every executed line of rich.color; afterwards all 256
+               indexed colours still convert correctly (keys fault/...);
 * SGR          30-37/90-97, 40-47/100-107, 38;5;n, 38;2;r;g;b, 39/49 by kind, for the
                input and for every conversion result, foreground and background.
 
@@ -34,11 +37,12 @@ quick:    24^3 boundary grid x 4 constructors, all 256 greys, all palette triple
 thorough: all 16,777,216 RGB colours (256 shards by red channel; ascending pass fully
           judged, descending pass re-judges the conversions of the rows g = r (mod 4))
           + everything of quick except the lattice.
-Threads part: quick 2,111 schedules (bound 1 on the four palette harnesses, bound 2 on
-->256), ~12 CPU-s; thorough adds bound 2 on same-palette and std-vs-win (~88 k schedules
-and ~420 CPU-s each) and bound 3 on ->256 (2,955 schedules).
-Measured: quick 11.0 M evaluations, ~70 CPU-s (46 s wall with 6 workers on a machine at
-load 85; ~6 s expected on 16 idle cores); thorough 422 M evaluations, 2079 CPU-s with 6
+Threads part: quick 3,404 schedules over 8 harnesses (bound 1 on the seven palette
+harnesses, bound 2 on ->256), each in its own cold forked child, ~25 ms each; thorough adds
+bound 2 on same-palette and std-vs-win (~88 k schedules and ~420 CPU-s each, in-process) and
+bound 3 on ->256 (2,955 schedules).  Fault part: 88 injected faults (18 shards), ~5 CPU-s.
+Measured: quick 11.26 M evaluations, ~90 CPU-s (31 s wall with 6 workers on a machine at
+load 47; ~8 s expected on 16 idle cores); thorough 422 M evaluations, 2079 CPU-s with 6
 workers at load >100 (29 min wall there; ~2.5 min expected on 16 idle cores).
 """
 import itertools
@@ -52,7 +56,7 @@ from ..par import Result, deadline_passed, MachineryError
 
 ID = "C18"
 LEVEL = "exploration"
-ENGINE = "E1+E3"
+ENGINE = "E1+E3+E4"
 CAP_S = {"quick": 240, "thorough": 1500}
 TECHNIQUE = ("exhaustive enumeration of the colour space on the real Color.downgrade / get_ansi_codes, "
              "judged by an independent integer redmean argmin, an xterm-256 decode table and the SGR table")
@@ -877,7 +881,7 @@ T_HARNESS = {
 T_ORDER = ("idx-std", "idx-win", "idx-vs-rgb", "same-palette", "same-colour", "std-vs-win", "win-win", "to-256")
 T_MAX_EXECS = 4000          # a clean harness has ~425 schedules; beyond this the shard reports capped
 T_STOP_AFTER_VIOLATIONS = 12
-T_SHARD_BUDGET_S = 120
+T_SHARD_BUDGET_S = 60
 _T_CODES = []
 _T_ON = [None]
 
@@ -993,40 +997,42 @@ def _explore_forked(hid, bound, on_exec, stop):
     """sched.explore() with every execution in its own cold child.  on_exec(record) -> False to stop."""
     stats = {"executions": 0, "max_choice_points": 0, "complete": True}
 
-    def dev_before(rec, i):
-        cp, ch = rec["cp"], rec["choices"]
-        return sum(1 for j in range(i) if ch[j] != 0 and (cp[j][1] or cp[j][2][ch[j]] == "fire"))
-
-    def children(rec, prefix):
+    def children(rec, plen):
+        """lazy children (choices of the parent, position, alternative): prefix = choices[:i] + [alt]"""
         out = []
-        cp = rec["cp"]
-        for i in range(len(prefix), len(cp)):
-            dev = dev_before(rec, i)
-            for alt in range(1, cp[i][0]):
-                c = dev + (1 if (cp[i][1] or cp[i][2][alt] == "fire") else 0)
-                if c <= bound:
-                    out.append(rec["choices"][:i] + [alt])
+        cp, ch = rec["cp"], rec["choices"]
+        dev = sum(1 for j in range(plen) if ch[j] != 0 and (cp[j][1] or cp[j][2][ch[j]] == "fire"))
+        for i in range(plen, len(cp)):
+            nopt, ren, kinds = cp[i]
+            if dev > bound:
+                break
+            for alt in range(1, nopt):
+                if dev + (1 if (ren or kinds[alt] == "fire") else 0) <= bound:
+                    out.append((ch, i, alt))
+            if ch[i] != 0 and (ren or kinds[ch[i]] == "fire"):
+                dev += 1
         return out
 
     # scheduler installed, events on and oracle built in the worker before forking: none of this
     # converts a colour, and the children inherit it instead of redoing it
     oracle()
     _t_events(True)
-    stack = [[]]
+    stack = [([], 0, None)]
     while stack:
-        prefix = stack.pop()
+        ch, i, alt = stack.pop()
+        prefix = [] if alt is None else ch[:i] + [alt]
         if stop() or stats["executions"] >= T_MAX_EXECS:
             stats["complete"] = False
             break
         rec = _in_child(lambda: _t_child(hid, prefix))
         if rec["problem"] and rec["problem"].startswith("divergence"):
-            raise MachineryError("schedule replay diverged: %s prefix=%r" % (rec["problem"], prefix))
+            raise MachineryError("schedule replay diverged: %s prefix=%r" % (rec["problem"], prefix[-20:]))
         stats["executions"] += 1
         stats["max_choice_points"] = max(stats["max_choice_points"], len(rec["choices"]))
         if on_exec(rec) is False:
             stats["complete"] = False
             break
-        kids = children(rec, prefix)
+        kids = children(rec, len(prefix))
         kids.reverse()
         stack.extend(kids)
     return stats
@@ -1099,6 +1105,8 @@ F_FIRST = (_IDX(196), _IDX(16), _RGB(255, 85, 85))
 F_SYSTEMS = ("STANDARD", "WINDOWS", "EIGHT_BIT")
 F_RGB_AFTER = [(0, 0, 0), (255, 255, 255), (255, 85, 85), (85, 85, 255), (128, 128, 128), (95, 0, 0), (12, 200, 77)]
 F_MAX_K = 1500
+F_STOP_AFTER_VIOLATIONS = 6      # counterexamples found: the shard stops (and says it is not exhaustive)
+F_SHARD_BUDGET_S = 90
 F_TOOL = 3
 
 
@@ -1161,10 +1169,10 @@ def _f_child(first, T, kind, k):
         for T2 in SYSTEMS:
             for n in range(256):
                 desc = ("idx", n, "ansi")
-                O.conv(O.build(desc), O.ref(desc), T2, res, desc, True, keyprefix="fault/")
+                O.conv(O.build(desc), O.ref(desc), T2, res, desc, False, keyprefix="fault/")
             for rgb in F_RGB_AFTER:
                 desc = ("rgb",) + rgb + ("triplet",)
-                O.conv(O.build(desc), O.ref(desc), T2, res, desc, True, keyprefix="fault/")
+                O.conv(O.build(desc), O.ref(desc), T2, res, desc, False, keyprefix="fault/")
     finally:
         O.case_base = None
     res.sigs = {("fault", kind, T, first[0], raised is not None, bool(res.violations)): 1}
@@ -1178,13 +1186,19 @@ def _part_fault(sh, res):
     K = _in_child(lambda: _f_child(first, T, kind, 0))["points"]
     res.count("fault_points", K)
     res.counters["max_fault_points_in_one_first_conversion"] = K
+    import time
+    t0 = time.time()
+    bad = 0
     for k in range(1, min(K, F_MAX_K) + 1):
-        if deadline_passed():
+        if deadline_passed() or time.time() - t0 > F_SHARD_BUDGET_S or bad >= F_STOP_AFTER_VIOLATIONS:
             res.capped = True
+            res.count("fault_shards_stopped_early")
             break
         out = _in_child(lambda: _f_child(first, T, kind, k))
         res.merge(out["res"])
         res.count("fault_runs")
+        if out["res"].violations:
+            bad += 1
         if not out["raised"]:
             res.count("fault_not_raised")
     if K > F_MAX_K:
@@ -1300,10 +1314,16 @@ def describe(tier, seed, res):
                 "convert one RGB colour through the shared palettes and memos from cold memos; every interleaving of the "
                 "executed lines of rich.color and rich.palette with <= bound preemptions (%s) is run; each thread's result "
                 "and the memoised answer to the same question afterwards are judged by the sequential clauses; a schedule "
-                "is non-trivial when it contains a preemption."
+                "is non-trivial when it contains a preemption; except for the bound-2 palette harnesses of the thorough tier "
+                "every schedule runs in a child forked from a worker that has converted nothing (lazily built module state "
+                "starts cold); a harness stops after %d violating schedules. Faults (E4): first conversion of a cold child, "
+                "colours %s x systems %s, interrupted by an exception at the k-th execution of Palette.match and at the k-th "
+                "executed line of rich.color for every k of the fault-free run (<=%d); the exception is caught, then all 256 "
+                "indexed colours and %d RGB colours are converted to the 4 systems and judged."
                 % (len(oracle().names), H_DEPTH, len(H_COLOURS),
                    ", ".join("%s: %r->%s || %r->%s" % (h, T_HARNESS[h][0][1:-1], T_HARNESS[h][1], T_HARNESS[h][2][1:-1], T_HARNESS[h][3]) for h in T_ORDER),
-                   ", ".join("%s: %d" % (h, _t_bound(h, tier)) for h in T_ORDER)),
+                   ", ".join("%s: %d" % (h, _t_bound(h, tier)) for h in T_ORDER),
+                   T_STOP_AFTER_VIOLATIONS, [list(f[1:-1]) for f in F_FIRST], list(F_SYSTEMS), F_MAX_K, len(F_RGB_AFTER)),
         "assumptions": [
             "the three palettes in rich/_palettes.py are trusted as data (entries 16..255 of the 256-colour palette are checked against the xterm cube and grey ramp)",
             "distance = integer redmean formula; any entry at minimum distance is accepted",
@@ -1311,6 +1331,7 @@ def describe(tier, seed, res):
             "STANDARD and WINDOWS typed results are both accepted as a 16-colour index; an index colour keeps its number when the target system contains it",
             "a WINDOWS colour converted to STANDARD may keep its number or take the nearest standard entry to its Windows-palette triplet",
             "hand-built EIGHT_BIT colours with number < 16 and theme-dependent get_truecolor are not covered",
+            "faults: the injected exception is a BaseException (like KeyboardInterrupt) raised from a sys.monitoring callback inside the first downgrade() of a process that has converted nothing; cold = forked from a worker that only imported rich",
             "threads: scheduling points are the executed lines of rich.color and rich.palette (not bytecodes, not the C code of lru_cache / min); two threads, preemption-bounded",
         ],
         "coverage": {"rgb_colours_walked": res.counters.get("rgb_colours", 0),
@@ -1318,6 +1339,7 @@ def describe(tier, seed, res):
                      "states": res.counters.get("choice_points", 0),
                      "transitions": res.counters.get("schedules", 0),
                      "schedules_explored": res.counters.get("schedules", 0),
+                     "fault_points_enumerated": res.counters.get("fault_runs", 0),
                      "completed_thread_harness_bounds": sorted(k[17:] for k in res.counters if k.startswith("threads_complete:")),
                      "explanation": "states = scheduling choice points visited over all explored schedules of the thread "
                                     "harnesses; transitions = schedules explored, each a complete execution of the real code"},
